@@ -273,23 +273,47 @@ type Fault struct {
 	Text string // bytes to emit (Garbage / StrayClose / Truncated)
 }
 
-// DocStream is an io.Reader producing a sequence of JSON values and faults. Natively
-// it serialises the items; under symgo Read is an intrinsic that hands the items over
-// as opaque markers in the buffer, and encoding/json's Decoder is replaced by a
-// contract-level model that pulls them through the reader it was given — including any
-// wrapper jqawk puts around it, whose code is interpreted for real (DESIGN.md §2.6). So
-// the values may carry symbolic leaves, and how data and errors are packed into Read
-// calls is part of the model:
+// DocStream is an io.Reader producing a sequence of JSON values and faults. How the
+// items and the reader's errors are packed into Read calls is part of the model (the
+// property quantifies over all partitions of the byte stream into read chunks and over
+// every position at which the reader fails):
 //
 //	Mode 0: one item per Read; end of input / an I/O error arrives in a call of its own
 //	Mode 1: the last item arrives together with io.EOF (n > 0 and err != nil in one call)
 //	Mode 2: two items per Read where available
 //	Mode 3: an injected I/O error arrives together with the data of the item before it
+//	Mode 4: chunk boundaries fall INSIDE values: a Read delivers the rest of one value and
+//	        the beginning of the next (the reader then blocks in the middle of a value)
+//
+// Read itself is ordinary Go (also under symgo). Only emitChunk differs: natively it
+// serialises the chunk's parts to bytes; under symgo it is an intrinsic that puts one
+// opaque marker per part into the buffer, and encoding/json's Decoder is replaced by a
+// contract-level model that pulls those markers through whatever reader it was given —
+// including any wrapper jqawk puts around the DocStream, whose code is interpreted for
+// real (DESIGN.md §2.6). So values may carry symbolic leaves.
 type DocStream struct {
 	Items  []any
-	OnRead func(item int) // called when the reader is asked for item i (i == len(Items): end of input)
+	OnRead func(delivered int) // called before each chunk is fetched with the number of items completely delivered so far
 	Mode   int
-	pos    int
+	chunks []chunk
+	next   int
+	// native only: the rest of a chunk that did not fit the caller's buffer
+	pending    []byte
+	pendingErr error
+}
+
+const (
+	partWhole = iota
+	partHead
+	partTail
+)
+
+type part struct{ Kind, Idx int }
+
+type chunk struct {
+	Parts     []part
+	Err       error
+	Delivered int // items completely delivered before this chunk
 }
 
 type ioError struct{}
@@ -306,47 +330,141 @@ func (d *DocStream) isReadErr(i int) bool {
 	return ok && f.Kind == ReadErr
 }
 
-func (d *DocStream) Read(p []byte) (int, error) {
-	if d.OnRead != nil {
-		d.OnRead(d.pos)
+func (d *DocStream) isValue(i int) bool {
+	if i >= len(d.Items) {
+		return false
 	}
-	if d.pos >= len(d.Items) {
+	_, isFault := d.Items[i].(Fault)
+	return !isFault
+}
+
+// plan lays the items out into Read calls according to Mode.
+func (d *DocStream) plan() []chunk {
+	var out []chunk
+	n := len(d.Items)
+	delivered := 0
+	add := func(c chunk) {
+		c.Delivered = delivered
+		for _, p := range c.Parts {
+			if p.Kind == partWhole || p.Kind == partTail {
+				delivered++
+			}
+		}
+		out = append(out, c)
+	}
+	switch d.Mode {
+	case 4:
+		// every value after the first is cut in two; a chunk ends at each cut (and around
+		// injected errors): [I0, head(I1)] [tail(I1), head(I2)] ... [tail(In)]
+		var cur []part
+		flush := func() {
+			if len(cur) > 0 {
+				add(chunk{Parts: cur})
+				cur = nil
+			}
+		}
+		for i := 0; i < n; i++ {
+			switch {
+			case d.isReadErr(i):
+				flush()
+				add(chunk{Err: ErrInjected})
+			case i > 0 && d.isValue(i) && !d.isReadErr(i-1):
+				cur = append(cur, part{partHead, i})
+				flush()
+				cur = append(cur, part{partTail, i})
+			default:
+				cur = append(cur, part{partWhole, i})
+			}
+		}
+		flush()
+	default:
+		for i := 0; i < n; i++ {
+			if d.isReadErr(i) {
+				if d.Mode == 3 && len(out) > 0 && out[len(out)-1].Err == nil && len(out[len(out)-1].Parts) > 0 {
+					out[len(out)-1].Err = ErrInjected
+				} else {
+					add(chunk{Err: ErrInjected})
+				}
+				continue
+			}
+			c := chunk{Parts: []part{{partWhole, i}}}
+			if d.Mode == 2 && i+1 < n && !d.isReadErr(i+1) {
+				c.Parts = append(c.Parts, part{partWhole, i + 1})
+				i++
+			}
+			add(c)
+		}
+		if d.Mode == 1 && len(out) > 0 && out[len(out)-1].Err == nil {
+			out[len(out)-1].Err = eof
+		}
+	}
+	out = append(out, chunk{Err: eof, Delivered: delivered})
+	return out
+}
+
+func (d *DocStream) Read(p []byte) (int, error) {
+	if n, err, ok := d.servePending(p); ok {
+		return n, err
+	}
+	if d.chunks == nil {
+		d.chunks = d.plan()
+	}
+	if d.next >= len(d.chunks) {
 		return 0, eof
 	}
-	if d.isReadErr(d.pos) {
-		d.pos++
-		return 0, ErrInjected
+	c := d.chunks[d.next]
+	d.next++
+	if d.OnRead != nil {
+		d.OnRead(c.Delivered)
 	}
+	return emitChunk(d, p, c)
+}
+
+// servePending hands out bytes of a chunk that did not fit the previous buffer.
+func (d *DocStream) servePending(p []byte) (int, error, bool) {
+	if len(d.pending) == 0 {
+		return 0, nil, false
+	}
+	n := copy(p, d.pending)
+	d.pending = d.pending[n:]
+	if len(d.pending) == 0 && d.pendingErr != nil {
+		err := d.pendingErr
+		d.pendingErr = nil
+		return n, err, true
+	}
+	return n, nil, true
+}
+
+// emitChunk writes the chunk into p (native: bytes; symgo: intrinsic, one marker per part).
+func emitChunk(d *DocStream, p []byte, c chunk) (int, error) {
 	var b []byte
-	take := 1
-	if d.Mode == 2 && d.pos+1 < len(d.Items) && !d.isReadErr(d.pos+1) {
-		take = 2
-	}
-	for k := 0; k < take; k++ {
-		it := d.Items[d.pos]
-		d.pos++
+	for _, pt := range c.Parts {
+		it := d.Items[pt.Idx]
+		var text []byte
 		if f, ok := it.(Fault); ok {
-			b = append(b, []byte(f.Text+"\n")...)
+			text = []byte(f.Text + "\n")
 		} else {
 			jb, err := json.Marshal(it)
 			if err != nil {
 				return 0, err
 			}
-			b = append(append(b, jb...), '\n')
+			text = append(jb, '\n')
 		}
-	}
-	if len(b) > len(p) {
-		panic("vh.DocStream: items larger than the read buffer")
+		half := len(text) / 2
+		switch pt.Kind {
+		case partHead:
+			text = text[:half]
+		case partTail:
+			text = text[half:]
+		}
+		b = append(b, text...)
 	}
 	n := copy(p, b)
-	if d.Mode == 1 && d.pos >= len(d.Items) {
-		return n, eof
+	if n < len(b) {
+		d.pending, d.pendingErr = b[n:], c.Err
+		return n, nil
 	}
-	if d.Mode == 3 && d.isReadErr(d.pos) {
-		d.pos++
-		return n, ErrInjected
-	}
-	return n, nil
+	return n, c.Err
 }
 
 var eof = io.EOF
